@@ -105,7 +105,21 @@ pub fn judge_variant(t: PackageType) -> Option<Fail> {
     let want = r8(t);
     let b = Purl::builder(t, "n").with_namespace("g");
     let in_purl = match crate::obs::build(b) {
-        Out::Ok(p) => p.to_string(),
+        Out::Ok(p) => {
+            // the type string inside a formatted PURL is the name whatever the format flags
+            // (which may pad or cut the whole text, not the type alone)
+            let plain = p.to_string();
+            if let Out::Ok(Some((spec, o))) = crate::obs::show_with_flags(&p, &plain) {
+                return Some(Fail::tagged("type-in-formatted-purl", format!("{want}:{spec}"), format!("{t:?}: format spec {spec} gives {o:?}, plain text {plain:?}")));
+            }
+            // and PackageType's own Display under the same flags
+            for (spec, o, fill) in [("{:12}", format!("{:12}", t), ' '), ("{:*>12}", format!("{:*>12}", t), '*'), ("{:#}", format!("{:#}", t), ' ')] {
+                if o.trim_matches(fill) != want {
+                    return Some(Fail::tagged("spelling-differs", format!("{want}:Display {spec}"), format!("{t:?}: Display with {spec} gives {o:?}, the name is {want:?}")));
+                }
+            }
+            plain
+        },
         o => return Some(Fail::tagged("build-failed", want, format!("building a {want} PURL: {}", o.kind()))),
     };
     let serde_form = serde_json::to_string(&t).unwrap_or_else(|e| format!("<{e}>"));
